@@ -517,6 +517,12 @@ class Hist:
                 raise Skip("SBML requires every species to have a compartment")
             if any(not x["mets"] for x in ref.rxns.values()):
                 raise Skip("SBML does not permit a reaction without reactants and products")
+            if op.get("f_replace", "default") != "default":
+                import re
+
+                sid = re.compile(r"^[A-Za-z_][A-Za-z0-9_]*$")
+                if not all(sid.match(i) for tbl in (ref.rxns, ref.mets, ref.genes, ref.groups) for i in tbl):
+                    raise Skip("without id replacement only SBML SIds can be written")
         # rename_genes: "undefined if a value matches a different key" (comment in the code)
         if kind == "rename_genes":
             mp = op["map"]
@@ -763,7 +769,16 @@ class Hist:
         elif how == "list":
             m.objective = list(items)
         else:
-            m.objective = {self.rxn(a, rid): c for rid, c in items}
+            d = {}
+            for rid, c in items:
+                if isinstance(rid, str) and rid.startswith("det:"):
+                    det = self.detached.get(rid[4:])
+                    if det is None:
+                        raise Skip("no detached reaction")
+                    d[det["obj"]] = c  # a reaction that is not in the model: the call fails part-way
+                else:
+                    d[self.rxn(a, rid)] = c
+            m.objective = d
 
     def do_set_direction(self, a, op, env):
         a.model.objective_direction = op["dir"]
@@ -1263,6 +1278,11 @@ def make_swarm(rng, prop, run_cfg):
             weights[k] = w * rng.choice([1, 1, 2, 4])
     if prop == "C07":
         sw["p_rule"] = 0.9
+    if prop in ("C10", "C11"):
+        sw["awkward"] = rng.random() < 0.5
+        if sw["awkward"]:
+            weights["rename_rxn"] = weights.get("rename_rxn", 2) * 3
+            weights["rename_met"] = weights.get("rename_met", 2) * 3
     if prop == "C10":
         sw["restart_formats"] = ["sbml"]
         sw["sbml_domain"] = True
@@ -1272,6 +1292,19 @@ def make_swarm(rng, prop, run_cfg):
         weights = {"set_bounds": 1}
     sw["weights"] = weights
     return sw
+
+
+AWK_SUFFIX = [".1", "-x", ":y", "/z", "[c]", "(e)", "=q", "'p", "__x", "_DASH_", ".", "-"]
+AWK_GENES = ["g.1", "2g", "g-3", "g:4", "g5.x-y", "gene/6"]
+
+
+def _awkward(prefix, existing, rng):
+    for _ in range(50):
+        base = rng.choice([prefix, "2" + prefix, prefix.lower()])
+        c = f"{base}{rng.randint(0, 9)}{rng.choice(AWK_SUFFIX)}"
+        if c not in existing:
+            return c
+    return _fresh(prefix, existing, rng)
 
 
 def _fresh(prefix, existing, rng):
@@ -1363,14 +1396,19 @@ def gen_op(rng, H, sw):
         if rng.random() < 0.15:
             tree = None
         else:
-            tree = gprtree.random_tree(rng, GENES[: sw["n_genes"]] + (["gX"] if rng.random() < 0.1 else []), 3)
+            alphabet = GENES[: sw["n_genes"]] + (["gX"] if rng.random() < 0.1 else [])
+            if sw.get("awkward"):
+                alphabet = alphabet[:2] + AWK_GENES[: sw["n_genes"]]
+            tree = gprtree.random_tree(rng, alphabet, 3)
         op.update(r=rid(), tree=tree, rule=gprtree.spell(tree, rng))
         if inv and k == "set_rule" and rng.random() < 0.5:
             op.update(tree=None, rule=rng.choice(["g1 and", "(g1", "g1 or or g2"]), malformed=True)
     elif k == "rename_rxn":
-        op.update(r=rid(), new=(rng.choice([rid(), "bad id"]) if inv else _fresh("Q", ref.rxns, rng)))
+        nf = _awkward if sw.get("awkward") and rng.random() < 0.7 else _fresh
+        op.update(r=rid(), new=(rng.choice([rid(), "bad id"]) if inv else nf("Q", ref.rxns, rng)))
     elif k == "rename_met":
-        op.update(m=mid(), new=(rng.choice([mid(), "bad id"]) if inv else _fresh("Z", ref.mets, rng)))
+        nf = _awkward if sw.get("awkward") and rng.random() < 0.7 else _fresh
+        op.update(m=mid(), new=(rng.choice([mid(), "bad id"]) if inv else nf("Z", ref.mets, rng)))
     elif k == "set_attr":
         kind = rng.choice(["rxn", "rxn", "met", "met", "gene"])
         if kind == "rxn":
@@ -1458,6 +1496,8 @@ def gen_op(rng, H, sw):
             items = sorted({rid() for _ in range(rng.randint(1, 2))})
         else:
             items = [[r, rng.choice([1, -1, 2, 0.5, 0])] for r in sorted({rid() for _ in range(rng.randint(1, 2))})]
+            if inv and H.detached:
+                items.append(["det:" + rng.choice(sorted(H.detached)), 1])
         op.update(how=how, items=items)
     elif k == "set_direction":
         op["dir"] = rng.choice(["max", "min", "maximize", "minimize", "Max", "MIN"] + (["sideways"] if inv else []))
